@@ -292,6 +292,33 @@ def handleSymVerdict (j : Json) : Except String Json := do
     ("params", Json.arr (params.map Json.str).toArray),
     ("deriveds", Json.arr ((Sym.merge "derived" comps).map fun p => Json.str p.1).toArray)]
 
+partial def parseFTree (j : Json) : Except String Fortran.FTree := do
+  let tag ← (← j.getArrVal? 0).getStr?
+  let S := fun (i : Nat) => do pure ((← (← j.getArrVal? i).getStr?).toList)
+  match tag with
+  | "sci" => pure (.sci (← S 1))
+  | "var" => pure (.var (← S 1))
+  | "listvar" => pure (.listvar (← S 1) (← S 2))
+  | "func" => pure (.func (← S 1) (← parseFTree (← j.getArrVal? 2)))
+  | "power" => pure (.power (← parseFTree (← j.getArrVal? 1)) (← parseFTree (← j.getArrVal? 2)))
+  | "paren" => pure (.paren (← parseFTree (← j.getArrVal? 1)))
+  | "bin" =>
+    let op ← S 1
+    pure (.bin (op.headD '?') (← parseFTree (← j.getArrVal? 2)) (← parseFTree (← j.getArrVal? 3)))
+  | "pair" => pure (.pair (← parseFTree (← j.getArrVal? 1)) (← parseFTree (← j.getArrVal? 2)))
+  | "unit" => pure .unit
+  | _ => throw s!"unknown tree tag {tag}"
+
+def chText (l : List CE.Ch) : String := String.ofList (l.filterMap fun c => match c with | CE.Ch.c x => some x | _ => none)
+
+def handleFtoC (j : Json) : Except String Json := do
+  let t ← parseFTree (← j.getObjVal? "tree")
+  pure <| Json.mkObj [("text", chText (Fortran.toC t)), ("parses_back", Fortran.parsesBack t)]
+
+def handleDExp (j : Json) : Except String Json := do
+  let s ← (← j.getObjVal? "text").getStr?
+  pure (Json.str (String.ofList (Fortran.dExp s.toList)))
+
 def handle (line : String) : String :=
   match Json.parse line with
   | .error e => (Json.mkObj [("error", s!"json: {e}")]).compress
@@ -309,6 +336,8 @@ def handle (line : String) : String :=
       | "species" => handleSpecies j
       | "renorm" => handleRenorm j
       | "symverdict" => handleSymVerdict j
+      | "ftoc" => handleFtoC j
+      | "dexp" => handleDExp j
       | "encode_native" => handleEncodeNative j
       | "kromebound" => handleKrome j
       | "dup" => handleDup j
